@@ -181,12 +181,14 @@ def handle {H} [DecidableEq H] (hash : Bytes → H) (short : H → List Char) (t
       else if hash body ≠ h then { tree := t, reply := some (.error "content hash mismatch"), consumed := body.length }
       else
         let cur := (hget t (keyOf p)).map hash
-        if isDir t (keyOf p) then
-          -- the rename onto a directory (or onto the root itself) fails: reported, nothing stored
-          { tree := t, reply := some (.error "commit failed"), consumed := body.length }
-        else if casCommit cur expected then
-          { tree := hins t (keyOf p) body, reply := some (.putResult true (some h)), consumed := body.length }
+        if casCommit cur expected then
+          if isDir t (keyOf p) then
+            -- the rename onto a directory (or onto the root itself) fails: reported, nothing stored
+            { tree := t, reply := some (.error "commit failed"), consumed := body.length }
+          else
+            { tree := hins t (keyOf p) body, reply := some (.putResult true (some h)), consumed := body.length }
         else
+          -- (a stale `expected` against a DIRECTORY is a conflict like any other: the copy lands beside it)
           { tree := hins t (osResolve (ccPick hash t p (short h) h (t.length + 1) 0)) body, reply := some (.putResult false cur), consumed := body.length }
   | .delete p expected =>
     match safeJoin [] p with
